@@ -601,6 +601,17 @@ impl<F: Read + Write + Seek> Package<F> {
         if !Table::is_valid_name(&table_name) {
             invalid_input!("{:?} is not a valid table name", table_name);
         }
+        // The string pool is stored in two streams that are named like table
+        // streams; a table with one of those names would share (and
+        // overwrite) the pool's stream.
+        if table_name == STRING_POOL_TABLE_NAME
+            || table_name == STRING_DATA_TABLE_NAME
+        {
+            invalid_input!(
+                "{:?} is reserved for the string pool and cannot be used as a                  table name",
+                table_name
+            );
+        }
         if columns.is_empty() {
             invalid_input!("Cannot create a table with no columns");
         }
